@@ -1028,6 +1028,9 @@ func (c *child) doLdw(mode string, file, older []byte, hasOlder bool, ctx string
 			}
 			return d
 		})
+		// the writer is opened to see which snapshot it comes up on: no background merge of the (template) segments
+		ic.MergePlanOptions.MaxSegmentsPerTier = 1 << 20
+		ic.MergePlanOptions.FloorSegmentSize = 1 // budget = number of live documents >= number of segments: nothing to merge
 		w, err := index.OpenWriter(ic)
 		if err != nil {
 			return func() string { return "error" }
@@ -1334,7 +1337,15 @@ func realIndex(dir string, variant int, seed uint64) ([]byte, string, error) {
 	r := hlib.NewRand(seed)
 	ver := uint32(1 + variant%2)
 	cfg := bluge.DefaultConfig(dir)
-	cfg = cfg.VerifWithIndexConfig(cfg.VerifIndexConfig().WithSegmentVersion(ver))
+	icfg := cfg.VerifIndexConfig().WithSegmentVersion(ver)
+	if ver == 2 {
+		// ice v2 shares a decompression buffer between concurrent merges of one segment (known finding
+		// ice-v2-stored-fields-race-with-merge, a panic in a background goroutine): only the persister's
+		// in-memory merge runs for v2, no file merges beside it
+		icfg.MergePlanOptions.MaxSegmentsPerTier = 1 << 20
+		icfg.MergePlanOptions.FloorSegmentSize = 1 // budget = number of live documents >= number of segments
+	}
+	cfg = cfg.VerifWithIndexConfig(icfg)
 	w, err := bluge.OpenWriter(cfg)
 	if err != nil {
 		return nil, "", err
